@@ -47,6 +47,10 @@ def app_cases(tier, rng):
             if rng.random() < 0.2:     # plain blocker: forces None on some frames
                 conds.append(c_script('(KBlocker false)', [rng.choice(['SFired', 'SFired', 'SFired', 'SNone']) for _ in range(L + 1)]))
             acts.append(action(ids, aid(j % 4, j, False, False), [], [], conds))
+        # an action bound again after another one was bound in between (A, B, A - the documented way to extend an
+        # action's mappings): still one action, evaluated once per frame
+        if len(acts) >= 2 and rng.random() < .4:
+            acts.append(action(ids, aid(0, 0, False, False), [], [], []))
         c = rng.choice([0, 1])
         sp = spec(acts)
         # a shared context with three holders, one or two of which leave in mid-run: the durations of the remaining
